@@ -365,7 +365,7 @@ class X86_64Arch(Architecture):
                         int_regs.pop(0)
                 else:
                     # We need stack location!
-                    arg_size = self.info.get_size(arg_type)
+                    arg_size = 8  # Also a float takes an eight byte slot
                     reg = StackLocation(offset, arg_size)
                     offset += arg_size
             elif isinstance(arg_type, ir.BlobDataTyp):
@@ -540,6 +540,12 @@ class X86_64Arch(Architecture):
                 yield self.move(al, push_reg)
                 yield RegisterUseDef(uses=(al,), defs=(registers.rax,))
                 yield Push(rax)
+            elif isinstance(push_reg, registers.XmmRegisterDouble):
+                yield PushXmmRegisterDouble(push_reg)
+            elif isinstance(push_reg, registers.XmmRegisterSingle):
+                # A float takes an eight byte slot as well:
+                yield SubImm(rsp, 4)
+                yield PushXmmRegisterSingle(push_reg)
             elif isinstance(push_reg, StackLocation):
                 # Invoke massive memcpy action!
                 # TODO: how about alignment?
